@@ -245,6 +245,30 @@ pub fn run_prop(ctx: &Ctx, sink: &mut Sink) {
         sink.push(Case { req: format!("size-e2e {} {n} {}", hex(suf.as_bytes()), sz.join(",")), imp: answers.join(" "), tags: vec!["e2e-size", "nt"] });
         let _ = std::fs::remove_dir_all(&dir);
     }
+    // ---- end to end: operands so large that N units exceed 2^64 bytes (nothing is that large)
+    for (suf, n) in [("G", 1u64 << 34), ("G", (1u64 << 34) - 1), ("M", 1 << 44), ("k", 1 << 54), ("b", 1 << 55), ("", 1 << 55), ("w", 1 << 63), ("k", (1 << 63) + 1), ("c", u64::MAX), ("G", u64::MAX)] {
+        let dir = ctx.scratch("szh");
+        let sizes: Vec<u64> = vec![0, 1, 1024, 1025, 3 << 20];
+        for (i, s) in sizes.iter().enumerate() {
+            let f = std::fs::File::create(dir.join(format!("f{i:03}"))).unwrap();
+            f.set_len(*s).unwrap();
+        }
+        let mut answers = vec![];
+        for form in ["", "+", "-"] {
+            let args: Vec<String> = vec![dir.to_str().unwrap().into(), "-mindepth".into(), "1".into(), "-size".into(), format!("{form}{n}{suf}"), "-print0".into()];
+            let o = find_inproc(&errf, &args, SystemTime::now(), None);
+            let mut v = vec![false; sizes.len()];
+            for p in o.out.split(|b| *b == 0).filter(|p| !p.is_empty()) {
+                let name = String::from_utf8_lossy(p);
+                let idx: usize = name.rsplit('f').next().unwrap().parse().unwrap();
+                v[idx] = true;
+            }
+            answers.push(if o.code == Some(0) { bits(&v) } else { format!("status-{}", o.status()) });
+        }
+        let sz: Vec<String> = sizes.iter().map(|s| s.to_string()).collect();
+        sink.push(Case { req: format!("size-e2e {} {n} {}", hex(suf.as_bytes()), sz.join(",")), imp: answers.join(" "), tags: vec!["e2e-size", "huge-operand", "nt"] });
+        let _ = std::fs::remove_dir_all(&dir);
+    }
     // ---- end to end: -links / -inum / -uid / -gid
     let dir = ctx.scratch("st");
     let mut files = vec![];
